@@ -106,7 +106,7 @@ Definition C15_no_panic : Prop := forall ops, exists t, run ops = Ok t /\
   (exists l, ranges t = Ok (Some l)) /\ (exists ns, node_iter _ _ t = Ok ns).
   (* + C13_total for diff on the resulting ranges; traverse is total by typing *)
 
-(* ======== C01 / C02 / C03 / C14 ======== *)
+(* ======== HistIndep / C02 / HashInj / LevelSpec ======== *)
 Definition C01_history_independence : Prop := forall ops1 ops2, final_map ops1 = final_map ops2 ->
   exists t1 t2, run ops1 = Ok t1 /\ run ops2 = Ok t2 /\
     strip (root _ _ t1) = strip (root _ _ t2) /\ root_digest t1 = root_digest t2 /\ ranges t1 = ranges t2.
@@ -157,7 +157,7 @@ Definition C11_ranges : Prop := forall ops t, run ops = Ok t ->
         nth_error (children p) i = Some c1 -> nth_error (children p) j = Some c2 ->
         span_of c1 = Some s1 -> span_of c2 = Some s2 -> snd s1 < fst s2)).
 
-(* ======== C12 / C13 : diff on arbitrary lists ======== *)
+(* ======== C12 / DiffTotal : diff on arbitrary lists ======== *)
 Definition wf_pr (r : prange) : Prop := ps _ r <= pe _ r.
 Definition bounds_of (l : list prange) : list N := flat_map (fun r => [ps _ r; pe _ r]) l.
 Fixpoint strictly_ascending (l : list drange) : Prop :=
@@ -295,7 +295,7 @@ Definition C06_refinement : Prop := forall n es rs, ev_run (fresh n) es = Ok rs 
                       strip (root _ _ (r_tree rp)) = strip (root _ _ t) /\
                       root_digest (r_tree rp) = root_digest t /\ ranges (r_tree rp) = ranges t) rs.
 
-(* ======== C17 ======== *)
+(* ======== Trav ======== *)
 Definition all_true : nat -> bool := fun _ => true.
 Definition full_events (t : mst) : list (ev digest V) := fst (traverse _ _ all_true t).
 Definition C17_iter_agrees : Prop := forall ops t, run ops = Ok t ->
